@@ -97,7 +97,7 @@ func genC18(t *rapid.T) *C18Case {
 		return string(rs[:rapid.IntRange(0, len(rs)).Draw(t, label+"Cut")])
 	}
 	compPartial := func() string {
-		return rapid.SampledFrom([]string{"", "a", "al", "alp", "be", "be-", "g", "x", "-", "-d", "=", "alpha"}).Draw(t, "compPartial")
+		return rapid.SampledFrom([]string{"", "a", "al", "alp", "be", "be-", "g", "x", "-", "-d", "=", "alpha", "rel", "Rel", "RELEASE-", "ma", "MAIN", "m", "A"}).Draw(t, "compPartial")
 	}
 	switch weighted(t, "lastKind", []int{8, 10, 8, 20, 6, 8, 6, 10, 14, 12}) {
 	case 0:
